@@ -576,3 +576,4 @@ MANIFEST = {
     "ref": "DESIGN.md §4 C08",
 }
 MANIFEST["text"] += ' A reading of the whole string (name, symbol, alias, prefixed) is preferred over a plural reading.'
+MANIFEST["text"] += ' The in operator never accepts a string that every lookup refuses (prefixed offset / logarithmic units).'
